@@ -14,6 +14,7 @@ import json, os, re, shutil, subprocess, sys, concurrent.futures as cf
 
 ENV = dict(os.environ, GOFLAGS="-mod=mod", GOPROXY="off")
 SEEDED = "/verif/seeded"
+BIN = os.environ.get("GOVERIF_BIN", "/verif/bin/goverif")  # a copy may be used while the binary is being rebuilt
 EXTRA = {  # further checks worth running for a seed (beyond its own property and C11)
     "C01c": ["C02", "C03"], "C03c": ["C01"], "C08d": ["C12", "C04"], "C11d": ["C12"], "C12e": ["C08"], "C14d": ["C13"], "C09d": ["C10"],
     "C02d": ["C05"], "C04d": ["C01"], "C05d": ["C08", "C12"], "C06d": ["C08"], "C10d": ["C09"], "C13d": ["C14"], "C11e": ["C07"],
@@ -77,7 +78,7 @@ def one(name):
         env = dict(ENV, GOVERIF_REPO=wt, GOVERIF_OUT=out)
         props = [prop] + [p for p in ["C11"] + EXTRA.get(name, []) if p != prop]
         for p in props:
-            rc, o = sh(f"timeout 1500 /verif/bin/goverif check -tier quick {p}", cwd="/verif", env=env)
+            rc, o = sh(f"timeout 1500 {BIN} check -tier quick {p}", cwd="/verif", env=env)
             viol = [l for l in o.splitlines() if l.startswith("VIOLATION")]
             summ = [l for l in o.splitlines() if re.match(r"^C\d+:", l)]
             meta["checks"][p] = {"exit": rc, "violations": len(viol), "first": [v.replace(out, "<out>")[:260] for v in viol[:3]],
